@@ -143,7 +143,7 @@ theorem errors_surface_threads {ws : List (List CStep)} {l : List CStep} (h : In
 theorem mp_error_lost_ce : afterJoin false [.write 0 [1], .raise 7] = none ∧
     afterJoin true [.write 0 [1], .raise 7] = some 7 := by decide
 
-theorem interleave_nil_of_all_empty (ws : List (List CStep)) (h : ∀ w ∈ ws, w = []) : Interleave ws [] := by
+theorem interleave_nil_of_all_empty {α : Type} (ws : List (List α)) (h : ∀ w ∈ ws, w = []) : Interleave ws [] := by
   induction ws with
   | nil => exact .nil
   | cons w ws ih =>
@@ -151,7 +151,7 @@ theorem interleave_nil_of_all_empty (ws : List (List CStep)) (h : ∀ w ∈ ws, 
     subst hw
     exact .cons (ih (fun w' hw' => h w' (by simp [hw']))) .nil
 
-theorem interleave_step (ws : List (List CStep)) (i : Nat) (s : CStep) (w' : List CStep) (l : List CStep)
+theorem interleave_step {α : Type} (ws : List (List α)) (i : Nat) (s : α) (w' : List α) (l : List α)
     (hi : ws[i]? = some (s :: w')) (h : Interleave (ws.set i w') l) : Interleave ws (s :: l) := by
   induction ws generalizing i l with
   | nil => simp at hi
@@ -172,7 +172,7 @@ theorem interleave_step (ws : List (List CStep)) (i : Nat) (s : CStep) (w' : Lis
 /-- The executable scheduler only produces interleavings: whenever the schedule runs every
     worker to its end, the resulting step sequence is an `Interleave` of the workers — so the
     theorems above apply to every run the correspondence harness enforces. -/
-theorem runSchedule_interleave (ws : List (List CStep)) (sched : List Nat)
+theorem runSchedule_interleave {α : Type} (ws : List (List α)) (sched : List Nat)
     (hdone : ∀ w ∈ remaining ws sched, w = []) : Interleave ws (runSchedule ws sched) := by
   induction sched generalizing ws with
   | nil => exact interleave_nil_of_all_empty ws hdone
